@@ -10,11 +10,11 @@ CONSTANTS
   CreatePeriod = 2
   FeeSet = {0, 1, 2}
   DtSet = {0, 1, 2, 3}
-  LimitSet = {0, 100}
+  LimitSet = {0, 1, 2, 3, 4, 5}
   ExecOffsets = {0, 1, 2, 3, 4}
   MaxH = 100
-  StartWithGroup = FALSE
-  Bal0 = 1000
+  StartWithGroup = TRUE
+  Bal0 = 6
   Depth = 26
 SPECIFICATION GSpec
 INVARIANT Emit
